@@ -386,26 +386,40 @@ theorem load_fragment (b : Block) (hb : FragBlock V b) (code : List Instr)
   rw [← hres, all_resolve]
   exact nr_genBlock b hb
 
-/-- a block of the fragment defines no routines -/
-theorem collect_frag : ∀ (b : Block), FragBlock V b → Sem.collect b = []
-  | .nil, _ => rfl
-  | .cons st rest, h => by
-    have hr := collect_frag rest h.2
-    cases st with
-    | defRoutine n ps body => exact absurd h.1 (by simp [FragStmt])
-    | ite c t e =>
-      cases e with
-      | none =>
-        have ht := collect_frag t h.1.2.1
-        simp only [Sem.collect, ht, hr, List.append_nil]
-      | some e =>
-        have ht := collect_frag t h.1.2.1
-        have he := collect_frag e h.1.2.2
-        simp only [Sem.collect, ht, he, hr, List.append_nil]
-    | repeat_ hd body =>
-      have hb := collect_frag body h.1.2
-      simp only [Sem.collect, hb, hr, List.append_nil]
-    | _ => simp only [Sem.collect, hr]
+mutual
+  /-- a block of the fragment defines no routines -/
+  theorem collect_frag : ∀ (b : Block), FragBlock V b → Sem.collect b = []
+    | .nil, _ => by rw [Sem.collect]
+    | .cons st rest, h => by
+      have hr := collect_frag rest h.2
+      cases st with
+      | defRoutine n ps body => exact absurd h.1 (by simp [FragStmt])
+      | ite c t e =>
+        cases e with
+        | none =>
+          have ht := collect_frag t h.1.2.1
+          simp only [Sem.collect, ht, hr, List.append_nil]
+        | some e =>
+          have ht := collect_frag t h.1.2.1
+          have he := collect_frag e h.1.2.2
+          simp only [Sem.collect, ht, he, hr, List.append_nil]
+      | repeat_ hd body =>
+        have hb := collect_frag body h.1.2
+        simp only [Sem.collect, hb, hr, List.append_nil]
+      | action k ops =>
+        have ho := collectOps_frag ops h.1
+        simp only [Sem.collect, ho, hr, List.append_nil]
+      | _ => simp only [Sem.collect, hr]
+  theorem collectOps_frag : ∀ (ops : Operands), FragOperands V ops → Sem.collectOps ops = []
+    | .nil, _ => by rw [Sem.collectOps]
+    | .cons o rest, h => by
+      have hr := collectOps_frag rest h.2
+      cases o with
+      | matrixBlock n body =>
+        have hb := collect_frag body h.1
+        simp only [Sem.collectOps, hb, hr, List.append_nil]
+      | _ => simp only [Sem.collectOps, hr]
+end
 
 
 end Sim
